@@ -154,7 +154,91 @@ def _macroname(seed):
 
 # the HTML highlight uses tex2txt.get_line_starts and the macro-name
 # correction of shell/utils: their bounded stand-ins (defined for C16)
-QUICK_BOUNDED = [formats_agree_bounded, _gls, _macroname]
+def server_requests_bounded(seed):
+    """request assembly of the server emulation (server.Handler.
+    create_message): the options handed to the proofreader are the
+    configured --lt-options, where only entries that correspond to a field
+    present in THIS request are replaced -- checked against an independent
+    reference for every sequence of <= 3 requests over 5 request kinds x 3
+    configurations (the configured list must also be left as it was)"""
+    import itertools
+    import types
+    from pyvc import replay as _r
+    from props import shellenv
+    srv = _r.real_module('yalafi.shell.server')
+    g = shellenv.startup(['--no-config', 'f.tex'])
+    option_map = g['lt_option_map']
+    configs = [[], ['--disable', 'R1', '--level', 'PICKY'],
+               ['--enablecategories', 'C1', '--disable', 'R1,R2', '-eo']]
+    kinds = [{}, {'disabledRules': ['X1']}, {'enabledRules': ['X2']},
+             {'disabledCategories': ['K']},
+             {'disabledRules': ['X1'], 'enabledOnly': ['true']}]
+    n, fails = 0, []
+
+    def ref(cfg, requ):
+        old = list(cfg)
+        new = []
+        for f, (names, nargs) in option_map.items():
+            if f not in requ or f == 'language':
+                continue
+            new.append(names[0])
+            if nargs == 1:
+                new.append(requ[f][0])
+            k = 0
+            while k < len(old):
+                if old[k] in names:
+                    del old[k:k + 1 + nargs]
+                else:
+                    k += 1
+        return old + new
+    for cfg in configs:
+        for ln in (1, 2, 3):
+            for seq in itertools.product(range(len(kinds)), repeat=ln):
+                seen = []
+
+                def proof(latex, language, disable, enable, discat, encat,
+                          opts):
+                    seen.append(list(opts))
+                    return latex, latex, list(range(1, len(latex) + 1)), []
+                cur = list(cfg)
+                h = srv.Handler.__new__(srv.Handler)
+                h.server = types.SimpleNamespace(
+                    my_proofreader=proof, my_option_map=option_map,
+                    my_lt_options=cur)
+                why = None
+                for k in seq:
+                    requ = dict(kinds[k], language=['en-GB'],
+                                text=['A test.\n'])
+                    n += 1
+                    try:
+                        h.create_message(requ)
+                    except Exception as e:      # noqa
+                        why = 'exception %r' % (e,)
+                        break
+                    want = ref(cfg, requ)
+                    if seen[-1] != want:
+                        why = 'request %r after %r: options %r, expected ' \
+                            '%r' % (kinds[k], [kinds[j] for j in seq[:len(
+                                seen) - 1]], seen[-1], want)
+                        break
+                    if cur != cfg:
+                        why = 'configured options changed to %r' % (cur,)
+                        break
+                if why:
+                    fails.append({'configured': cfg, 'why': why})
+                    if len(fails) >= 3:
+                        break
+            if len(fails) >= 3:
+                break
+        if len(fails) >= 3:
+            break
+    return {'name': 'server-requests-use-the-configured-options',
+            'bounded': True,
+            'bound': 'all sequences of <= 3 requests over 5 kinds x 3 '
+            'configurations', 'evaluations': n, 'failures': fails}
+
+
+QUICK_BOUNDED = [formats_agree_bounded, _gls, _macroname, server_requests_bounded]
 
 TRUSTED = [
     'tex2txt.tex2txt as seen from the shell: text and map of equal length, 1 <= |p| <= len(tex) (proved in C01 for the '
